@@ -13,6 +13,8 @@ import (
 
 // Env evaluates contract expressions to SMT terms.
 type Env struct {
+	assuming    bool // the clause being evaluated is about to be assumed: its top-level quantifiers are kept for instantiation
+	top         bool // the expression being evaluated is a top-level conjunct of the clause
 	fv          *FuncVC
 	names       map[string]Val
 	st, old     *State
@@ -80,7 +82,9 @@ func (e *Env) pkg() *types.Package {
 
 func (e *Env) evalBool(x Expr, cl *Clause) string {
 	e.cur = cl
+	e.top = true
 	t := e.eval(x)
+	e.top = false
 	if t.Sort.Kind != KBool {
 		e.fail("%s is not boolean", exprString(x))
 	}
@@ -173,6 +177,23 @@ func (e *Env) unify(a, b Term) (Term, Term) {
 
 func (e *Env) eval(x Expr) Term {
 	fv := e.fv
+	wasTop := e.top
+	if wasTop {
+		keep := false
+		switch b := x.(type) {
+		case EBinary:
+			keep = b.Op == "&&"
+		case EQuant:
+			keep = b.Forall
+		case ECall:
+			_, isSpec := fv.P.CS.Specs[b.Fn]
+			keep = isSpec
+		}
+		if !keep {
+			e.top = false
+			defer func() { e.top = wasTop }()
+		}
+	}
 	switch x := x.(type) {
 	case EInt:
 		t := Term{Untyped: true, Lit: x.V, Sort: SInt}
@@ -267,7 +288,10 @@ func (e *Env) quant(x EQuant) Term {
 	bv := fmt.Sprintf("%s_q%d", x.Var, fv.nfresh)
 	saved, had := e.names[x.Var]
 	e.names[x.Var] = Val{T: Term{S: bv, Sort: SInt, Go: types.Typ[types.Int]}}
+	svTop := e.top
+	e.top = false
 	body := e.eval(x.Body)
+	e.top = svTop
 	if had {
 		e.names[x.Var] = saved
 	} else {
@@ -277,6 +301,9 @@ func (e *Env) quant(x EQuant) Term {
 		e.fail("quantifier body is not boolean")
 	}
 	rng := smtAnd(fv.ile(lo.S, bv), fv.ilt(bv, hi.S))
+	if x.Forall && e.assuming && e.top {
+		fv.registerQuant(bv, smtImp(rng, body.S))
+	}
 	if x.Forall {
 		if pats := selectPatterns(body.S, bv); len(pats) > 0 {
 			var ps string
@@ -889,7 +916,7 @@ func (e *Env) specCall(sf *SpecFunc, args []Term) Term {
 	}
 	if sf.Def != nil {
 		// inline the definition
-		sub := &Env{fv: fv, names: map[string]Val{}, st: e.st, old: e.old, pkgOverride: e.pkgOverride, cur: e.cur}
+		sub := &Env{fv: fv, names: map[string]Val{}, st: e.st, old: e.old, pkgOverride: e.pkgOverride, cur: e.cur, assuming: e.assuming, top: e.top}
 		for i, p := range sf.Params {
 			sub.names[p] = Val{T: cargs[i]}
 		}
@@ -1154,4 +1181,69 @@ func containsToken(s, tok string) bool {
 		}
 	}
 	return false
+}
+
+// ---------------------------------------------------------------------------
+// Generator-applied instantiation of assumed quantified facts. An assumed
+// top-level `forall k in a..b: body` is remembered together with the arrays
+// its body indexes; whenever the code reads an element of one of those arrays
+// at index i, the instance body[k := i] (under the same path condition as the
+// assumption) is asserted. Solvers still get the quantified fact itself; the
+// instance makes the common "element taken from a slice the contract talks
+// about" step independent of trigger matching modulo arithmetic.
+type quantInst struct {
+	bv    string
+	tmpl  string
+	guard string
+	arrs  []string
+	done  map[string]bool
+}
+
+func (fv *FuncVC) registerQuant(bv, tmpl string) {
+	q := &quantInst{bv: bv, tmpl: tmpl, guard: fv.curReach, done: map[string]bool{}}
+	for _, p := range selectPatterns(tmpl, bv) {
+		// (select ARR IDX): ARR is the first argument
+		parts := splitTop(p[len("(select ") : len(p)-1])
+		if len(parts) == 2 {
+			q.arrs = append(q.arrs, parts[0])
+		}
+	}
+	if len(q.arrs) > 0 {
+		fv.quants = append(fv.quants, q)
+	}
+}
+
+// instantiateAt: the code reads arr[off+i].
+func (fv *FuncVC) instantiateAt(arr string, i string) {
+	for _, q := range fv.quants {
+		hit := false
+		for _, a := range q.arrs {
+			if a == arr {
+				hit = true
+			}
+		}
+		if !hit || q.done[i] {
+			continue
+		}
+		q.done[i] = true
+		fv.assert(smtImp(q.guard, replaceToken(q.tmpl, q.bv, i)))
+	}
+}
+
+func replaceToken(s, tok, by string) string {
+	var sb strings.Builder
+	for i := 0; i < len(s); {
+		if strings.HasPrefix(s[i:], tok) {
+			before := i == 0 || strings.ContainsRune("( )", rune(s[i-1]))
+			after := i+len(tok) == len(s) || strings.ContainsRune("( )", rune(s[i+len(tok)]))
+			if before && after {
+				sb.WriteString(by)
+				i += len(tok)
+				continue
+			}
+		}
+		sb.WriteByte(s[i])
+		i++
+	}
+	return sb.String()
 }
